@@ -89,7 +89,7 @@ def _rename_schema(draw, s, cmap, depth=0):
 
 @st.composite
 def hostile_doc(draw):
-    prof = docs.profile(max_schemas=4, max_props=4, max_ops=3, desc=True, allof=True, defaults=True, inline_allof=True, prefix_items=True)
+    prof = docs.profile(max_schemas=4, max_props=4, max_ops=3, desc=True, allof=True, defaults=True, inline_allof=True, prefix_items=True, const_everywhere=True)
     ir = draw(docs.doc_ir(prof))
     comp_old = [n for n, _ in ir["schemas"]]
     comp_new = draw(names.distinct_hostile(len(comp_old), allow_empty=False,
